@@ -1,0 +1,89 @@
+//go:build verif
+
+package es
+
+// Contracts for the goblvc verifier (see /verif/DESIGN.md). Comments only.
+//
+// C13 (Spain). Organisations and "other" codes: a letter, seven digits and a check character.
+// The digits at positions 0, 2, 4, 6 are doubled (digit sum when above 9), the others added;
+// the check value is (10 - sum mod 10) mod 10, written either as that digit or as the letter
+// at that position of "JABCDEFGHI".
+//@ global ErrTaxCodeInvalidCheck != nil && ErrTaxCodeNoMatch != nil && ErrTaxCodeUnknownType != nil
+//@ spec esD(d int, k int) int = ite(k % 2 == 0, ite(2 * d > 9, 2 * d - 9, 2 * d), d)
+//@ rec esOrgSum(s string, k int) int = ite(k <= 0, 0, esOrgSum(s, k - 1) + esD(s_byte(s, k - 1) - 48, k - 1))
+//@ spec esOrgCheck(s string) int = (10 - esOrgSum(s, 7) % 10) % 10
+// value of a check character: J A B C D E F G H I read 0..9, a digit reads itself
+//@ spec esCheckVal(b int) int = ite(b == 74, 0, ite(b >= 65 && b <= 73, b - 64, b - 48))
+//@ spec esCheckChar(b int) bool = (b >= 48 && b <= 57) || (b >= 65 && b <= 74)
+//
+//@ func verifyOrgCodeMatches(m) (err)
+//@   bytes
+//@   requires m != nil && has(m, "number") && has(m, "check") && len(m["number"]) == 7 && digitsIn(m["number"], 0, 7) && len(m["check"]) == 1 && esCheckChar(s_byte(m["check"], 0))
+//@   ensures [iff] err == nil <==> esOrgCheck(m["number"]) == esCheckVal(s_byte(m["check"], 0))
+//@   loop 1 invariant len(num) == 7 && len(p) == 7 && fresh(p) && (forall j int :: 0 <= j && j < 7 ==> num[j] == s_byte(m["number"], j)) && (forall j int :: 0 <= j && j < idx ==> p[j] == s_byte(m["number"], j) - 48)
+//@   loop 2 invariant len(p) == 7 && (forall j int :: 0 <= j && j < 7 ==> p[j] == s_byte(m["number"], j) - 48) && sumEven + sumOdd == esOrgSum(m["number"], idx) && sumEven >= 0 && sumOdd >= 0 && sumEven + sumOdd <= 9 * idx
+//
+// National (DNI) and foreign (NIE) codes: the number (for a NIE with X, Y, Z read as 0, 1, 2 in
+// front of its seven digits) modulo 23 selects the check letter from "TRWAGMYFPDXBNJZSQVHLCKE";
+// a DNI of zeros only is refused.
+//@ spec esLetter(b int) bool = b >= 65 && b <= 90 && b != 73 && b != 79 && b != 85
+//@ spec esOrgType(b int) bool = (b >= 65 && b <= 72) || b == 74 || b == 78 || (b >= 80 && b <= 83) || (b >= 85 && b <= 87)
+//@ pred esNat(s string) bool = len(s) == 9 && digitsIn(s, 0, 8) && esLetter(s_byte(s, 8))
+//@ pred esFor(s string) bool = len(s) == 9 && s_byte(s, 0) >= 88 && s_byte(s, 0) <= 90 && digitsIn(s, 1, 8) && esLetter(s_byte(s, 8))
+//@ pred esOth(s string) bool = len(s) == 9 && s_byte(s, 0) >= 75 && s_byte(s, 0) <= 77 && digitsIn(s, 1, 8) && esCheckChar(s_byte(s, 8))
+//@ pred esOrg(s string) bool = len(s) == 9 && esOrgType(s_byte(s, 0)) && digitsIn(s, 1, 8) && esCheckChar(s_byte(s, 8))
+//@ pin taxCodeNationalRegexp regexp.MustCompile(`^(?P<number>[0-9]{8})(?P<check>[` + taxCodeCheckLetters + `])$`) /* taxCodeCheckLetters = "TRWAGMYFPDXBNJZSQVHLCKE" */
+//@ pin taxCodeForeignRegexp regexp.MustCompile(`^(?P<type>[` + taxCodeForeignTypeLetters + `])(?P<number>[0-9]{7})(?P<check>[` + taxCodeCheckLetters + `])$`) /* taxCodeForeignTypeLetters = "XYZ" */ /* taxCodeCheckLetters = "TRWAGMYFPDXBNJZSQVHLCKE" */
+//@ pin taxCodeOtherRegexp regexp.MustCompile(`^(?P<type>[` + taxCodeOtherTypeLetters + `])(?P<number>[0-9]{7})(?P<check>[0-9` + taxCodeOrgCheckLetters + `])$`) /* taxCodeOtherTypeLetters = "KLM" */ /* taxCodeOrgCheckLetters = "JABCDEFGHI" */
+//@ pin taxCodeOrgRegexp regexp.MustCompile(`^(?P<type>[` + taxCodeOrgTypeLetters + `])(?P<number>[0-9]{7})(?P<check>[0-9` + taxCodeOrgCheckLetters + `])$`) /* taxCodeOrgTypeLetters = "ABCDEFGHJNPQRSUVW" */ /* taxCodeOrgCheckLetters = "JABCDEFGHI" */
+//@ global taxCodeNationalRegexp != nil && taxCodeForeignRegexp != nil && taxCodeOtherRegexp != nil && taxCodeOrgRegexp != nil && taxCodeNationalRegexp != taxCodeForeignRegexp && taxCodeNationalRegexp != taxCodeOtherRegexp && taxCodeNationalRegexp != taxCodeOrgRegexp && taxCodeForeignRegexp != taxCodeOtherRegexp && taxCodeForeignRegexp != taxCodeOrgRegexp && taxCodeOtherRegexp != taxCodeOrgRegexp
+//@ global forall s string :: (reMatch(taxCodeNationalRegexp, s) <==> esNat(s)) && (reMatch(taxCodeForeignRegexp, s) <==> esFor(s)) && (reMatch(taxCodeOtherRegexp, s) <==> esOth(s)) && (reMatch(taxCodeOrgRegexp, s) <==> esOrg(s))
+//
+// the named groups of the four patterns (assumed: X-REGEXP-ES): "number" is the digit run,
+// "check" the last character, "type" the leading letter where there is one
+//@ func extractMatches(regex, code) (m, err)
+//@   trusted X-REGEXP-ES: FindStringSubmatch / SubexpNames of the four pinned patterns yield these groups
+//@   requires regex != nil
+//@   ensures [match] reMatch(regex, code) <==> err == nil
+//@   ensures [map] err == nil ==> m != nil && fresh(m) && has(m, "number") && has(m, "check") && m["check"] == s_substr(code, 8, 9)
+//@   ensures [national] err == nil && regex == taxCodeNationalRegexp ==> m["number"] == s_substr(code, 0, 8)
+//@   ensures [typed] err == nil && regex != taxCodeNationalRegexp ==> has(m, "type") && m["type"] == s_substr(code, 0, 1) && m["number"] == s_substr(code, 1, 8)
+//
+//@ spec esLetterAt(i int) int = s_byte("TRWAGMYFPDXBNJZSQVHLCKE", i)
+//@ func verifyNationalCode(code) (err)
+//@   bytes
+//@   requires esNat(code)
+//@   ensures [iff] err == nil <==> dval(s_substr(code, 0, 8), 8) != 0 && esLetterAt(dval(s_substr(code, 0, 8), 8) % 23) == s_byte(code, 8)
+//
+//@ func verifyForeignCode(code) (err)
+//@   bytes
+//@   requires esFor(code)
+//@   ensures [iff] err == nil <==> esLetterAt(((s_byte(code, 0) - 88) * 10000000 + dval(s_substr(code, 1, 8), 7)) % 23) == s_byte(code, 8)
+//
+//@ func verifyOrgCode(code) (err)
+//@   bytes
+//@   requires esOrg(code)
+//@   ensures [iff] err == nil <==> esOrgCheck(s_substr(code, 1, 8)) == esCheckVal(s_byte(code, 8))
+//@ func verifyOtherCode(code) (err)
+//@   bytes
+//@   requires esOth(code)
+//@   ensures [iff] err == nil <==> esOrgCheck(s_substr(code, 1, 8)) == esCheckVal(s_byte(code, 8))
+//
+// The whole rule: a code is of exactly one of the four kinds by its shape, and is accepted
+// when the check of its kind holds; any other shape is refused.
+//@ pred esNatValid(code string) bool = dval(s_substr(code, 0, 8), 8) != 0 && esLetterAt(dval(s_substr(code, 0, 8), 8) % 23) == s_byte(code, 8)
+//@ pred esForValid(code string) bool = esLetterAt(((s_byte(code, 0) - 88) * 10000000 + dval(s_substr(code, 1, 8), 7)) % 23) == s_byte(code, 8)
+//@ pred esOrgValid(code string) bool = esOrgCheck(s_substr(code, 1, 8)) == esCheckVal(s_byte(code, 8))
+//@ func DetermineTaxCodeType(code) (typ, err)
+//@   bytes
+//@   ensures [org] esOrg(code) ==> typ == "B" && (err == nil <==> esOrgValid(code))
+//@   ensures [national] esNat(code) ==> typ == "N" && (err == nil <==> esNatValid(code))
+//@   ensures [foreign] esFor(code) ==> typ == "X" && (err == nil <==> esForValid(code))
+//@   ensures [other] esOth(code) ==> typ == "O" && (err == nil <==> esOrgValid(code))
+//@   ensures [unknown] !esOrg(code) && !esNat(code) && !esFor(code) && !esOth(code) ==> typ == "NA" && err == nil
+//
+//@ func validateTaxCode(value) (err)
+//@   bytes
+//@   let code = unboxed(value, cbc.Code)
+//@   ensures [iff] typeis(value, cbc.Code) && code != "" ==> (err == nil <==> (esOrg(code) && esOrgValid(code)) || (esNat(code) && esNatValid(code)) || (esFor(code) && esForValid(code)) || (esOth(code) && esOrgValid(code)))
+//@   ensures [skip] !typeis(value, cbc.Code) || code == "" ==> err == nil
